@@ -83,6 +83,11 @@ def _run_case(case, ctx):
         n_iter = int(gen.choice(rs, [0, 1, 2, 5])) if path == "cap" else 200
         tolv = 1e-100 if path == "cap" else float(gen.choice(rs, [1e-2, 1e-4, 1e-6]))
         opts = {"init": gen.choice(rs, ["svd", "random"])}
+        warm = None
+        if algo in ("parafac", "nn_parafac", "nn_parafac_hals", "constrained_parafac") and rs.rand() < 0.3:
+            # warm start from a decomposition carrying non-unit weights (e.g. the output of a normalised run)
+            opts.pop("init")
+            warm = (rs.uniform(0.5, 4.0, R).astype(dt), [np.abs(rs.standard_normal((s_, R))).astype(dt) + 0.05 for s_ in X.shape])
         if normalize:
             opts["normalize_factors"] = True
         if algo == "constrained_parafac":
@@ -90,15 +95,16 @@ def _run_case(case, ctx):
         if algo == "randomised_parafac":
             opts.update(n_samples=20, max_stagnation=0)
         seed = int(rs.randint(0, 2 ** 31 - 1))
-        desc = {"algo": algo, "data": data["cls"], "shape": list(X.shape), "rank_spec": rank, "R": R, "normalize": normalize, "path": path, "n_iter_max": n_iter, "tol": tolv, "dtype": dt, "init": opts["init"]}
-        r = decomp.run(algo, data, rank, n_iter, dict(opts), seed, tol=tolv)
+        desc = {"algo": algo, "data": data["cls"], "shape": list(X.shape), "rank_spec": rank, "R": R, "normalize": normalize, "path": path, "n_iter_max": n_iter, "tol": tolv, "dtype": dt, "init": opts.get("init", "user-with-weights")}
+        desc["warm_start_with_weights"] = warm is not None
+        r = decomp.run(algo, data, rank, n_iter, dict(opts), seed, tol=tolv, init=warm)
         nerr = len(r["errors"] or [])
         stopped_early = nerr < n_iter
         ctx.count("stop/%s" % ("converged" if stopped_early else "cap"))
         desc["stopped_early"] = stopped_early
         w, fs = r["decomp"]
         w = np.asarray(w)
-        cls_k = ("converged" if stopped_early else "cap")
+        cls_k = ("converged" if stopped_early else "cap") + ("+warm" if warm is not None else "")
         if R > 1 and sum(s > 1 for s in X.shape) > 1:
             ctx.nontriv(desc)
         ctx.sample({"case": desc}, 3)
@@ -331,12 +337,22 @@ def _run_case(case, ctx):
         if rs.rand() < 0.3:
             opts["nn_modes"] = [0, 2]
         seed = int(rs.randint(0, 2 ** 31 - 1))
-        desc = {"gen": g, "shapes": data["shape"], "rank": rank, "path": path, "n_iter_max": n_iter, "tol": tolv, "opts": opts, "dtype": dt, "data": data["cls"]}
-        r = decomp.run("parafac2", data, rank, n_iter, dict(opts), seed, tol=tolv)
+        warm = None
+        if rs.rand() < 0.3 and "nn_modes" not in opts:
+            opts.pop("init")
+            I_, K_ = len(sl), sl[0].shape[1]
+            warm = (rs.uniform(0.5, 4.0, rank).astype(dt), [rs.uniform(0.5, 2, (I_, rank)).astype(dt), (rs.standard_normal((rank, rank)) + 2 * np.eye(rank)).astype(dt),
+                                                          rs.standard_normal((K_, rank)).astype(dt)], [gen.orth(rs, s_.shape[0], rank, dt) for s_ in sl])
+        desc = {"gen": g, "shapes": data["shape"], "rank": rank, "path": path, "n_iter_max": n_iter, "tol": tolv, "opts": opts, "dtype": dt, "data": data["cls"],
+                "warm_start_with_weights": warm is not None}
+        r = decomp.run("parafac2", data, rank, n_iter, dict(opts), seed, tol=tolv, init=warm)
         w, (A, B, C), P = r["decomp"]
         stopped_early = len(r["errors"]) < n_iter
         ctx.count("stop/%s" % ("converged" if stopped_early else "cap"))
-        cls_k = "converged" if stopped_early else "cap"
+        cls_k = ("converged" if stopped_early else "cap") + ("+warm" if warm is not None else "")
+        if warm is not None and n_iter == 0:
+            ctx.skip("parafac2: warm start returned untouched by n_iter_max=0 keeps its own weights")
+            return
         if rank > 1:
             ctx.nontriv(desc)
         ctx.sample({"case": desc}, 2)
@@ -394,6 +410,19 @@ def _run_case(case, ctx):
         if [np.shape(f) for f in tcp[1]] != [(s, rank) for s in X.shape] or [np.shape(f) for f in mcp[1]] != [(M.shape[0], rank), (M.shape[1], rank)]:
             viol("cmtf", "shapes", "any", "tensor factors %s, matrix factors %s" % ([np.shape(f) for f in tcp[1]], [np.shape(f) for f in mcp[1]]), desc)
             return
+        if normalize and rank <= min(min(X.shape), M.shape[1]):
+            # the SVD initialisation is deterministic here: the plain run is the same computation without the final normalisation
+            with warnings.catch_warnings():
+                warnings.simplefilter("ignore")
+                tcp0, mcp0, _e0 = _cmtf_als.coupled_matrix_tensor_3d_factorization(X, M, rank, n_iter_max=n_iter, tol=tolv, normalize_factors=False)
+            ctx.count("clause/normalisation-preserves-tensor")
+            for nm, a, b in (("tensor", tcp, tcp0), ("matrix", mcp, mcp0)):
+                da, db = ref.cp_dense(a[0], [np.asarray(f) for f in a[1]])[0], ref.cp_dense(b[0], [np.asarray(f) for f in b[1]])[0]
+                sc = float(np.max(np.abs(db))) + 1e-300
+                if np.max(np.abs(da - db)) > 1e4 * eps * sc:
+                    viol("cmtf", "normalisation-preserves-%s" % nm, cls_k, "with normalize_factors=True the %s part represents a different array than without (max diff %.3g, scale %.3g)" % (
+                        nm, float(np.max(np.abs(da - db))), sc), desc)
+                    return
         for nm, (w, fs) in (("tensor", tcp), ("matrix", mcp)):
             wv = np.asarray(w)
             if normalize:
